@@ -138,6 +138,72 @@ func c01Scenarios(tier string) []*Scenario {
 				return "", "", deliveredOutcome(x.Rec.Log)
 			},
 		})
+		// B: real report loop on the virtual ticker, increments joined, then Close
+		out = append(out, &Scenario{
+			Property: "C01", Name: "B-ticker-close-" + b2s(cached), Ticks: tierInt(tier, 1, 2),
+			Body: func(x *Run) {
+				rec := &Recorder{}
+				x.Rec = rec
+				root, closer := tally.VerifNewRootScope(scopeOpts(rec, cached, false), 1e9, 1)
+				c := root.Counter("c")
+				sub := root.Tagged(map[string]string{"k": "v"})
+				c2 := sub.Counter("c")
+				w := rt.GoNamed("inc", func() {
+					c.Inc(1)
+					c2.Inc(1)
+					c.Inc(2)
+					c2.Inc(2)
+				})
+				w.Join()
+				_ = closer.Close()
+			},
+			Check: func(x *Run, o *rt.Outcome) (string, string, string) {
+				want := map[string]int64{"c{}": 3, `c{"k":"v"}`: 3}
+				cl, d := counterOracle(x.Rec.Log, want, -1, true)
+				if cl != "" {
+					return cl, d, "viol"
+				}
+				return "", "", deliveredOutcome(x.Rec.Log)
+			},
+		})
+		// C: report-on-reacquire of a closed scope || pass
+		out = append(out, &Scenario{
+			Property: "C01", Name: "C-reacquire-" + b2s(cached),
+			Body: func(x *Run) {
+				rec := &Recorder{}
+				x.Rec = rec
+				root, _ := tally.VerifNewRootScope(scopeOpts(rec, cached, false), 0, 1)
+				tags := map[string]string{"k": "v"}
+				sub := root.Tagged(tags)
+				sub.Counter("c").Inc(1)
+				_ = sub.(interface{ Close() error }).Close()
+				t1 := rt.GoNamed("reacquire", func() {
+					s2 := root.Tagged(tags)
+					s2.Counter("c").Inc(2)
+				})
+				t2 := rt.GoNamed("pass", func() { tally.VerifReportOnce(root) })
+				t1.Join()
+				t2.Join()
+				tally.VerifReportOnce(root)
+				x.Vals["quiet"] = len(rec.Log)
+				tally.VerifReportOnce(root)
+			},
+			Check: func(x *Run, o *rt.Outcome) (string, string, string) {
+				want := map[string]int64{`c{"k":"v"}`: 3}
+				cl, d := counterOracle(x.Rec.Log, want, x.Vals["quiet"].(int), true)
+				if cl != "" {
+					return cl, d, "viol"
+				}
+				return "", "", deliveredOutcome(x.Rec.Log)
+			},
+		})
 	}
 	return out
+}
+
+func tierInt(tier string, quick, thorough int) int {
+	if tier == "thorough" {
+		return thorough
+	}
+	return quick
 }
